@@ -316,7 +316,8 @@ class Ctx:
         bad = []
         for f in files:
             src = open(os.path.join(COQ, f)).read()
-            nocom = re.sub(r'\(\*.*?\*\)', ' ', src, flags=re.S)
+            # string literals first (Coq lexes strings inside comments too), then comments
+            nocom = re.sub(r'\(\*.*?\*\)', ' ', re.sub(r'"(?:[^"]|"")*"', '""', src), flags=re.S)
             names += ['%s:%s' % (f, m.group(2)) for m in OBLIGATION.finditer(nocom)]
             bad += ['%s: %s' % (f, t) for t in forbidden_tokens(nocom)]
         info['obligations'] = len(names)
